@@ -98,7 +98,9 @@ def frame_lines(maxh):
 
 def live_ops(H, tall):
     fl = frame_lines(H + 3 if tall else H)
-    uncropped = st.tuples(st.just("print"), st.lists(st.sampled_from(WORDS), min_size=1, max_size=1), st.sampled_from([{"soft_wrap": True}, {"crop": False}, {"soft_wrap": True, "crop": False}]))
+    uncropped = st.tuples(st.just("print"), st.lists(st.sampled_from(WORDS), min_size=1, max_size=1), st.sampled_from([{"soft_wrap": True}, {"crop": False}, {"soft_wrap": True, "crop": False},
+                                                                                                                                    # width= beyond the terminal (it is limited to the terminal's width), with and without cropping
+                                                                                                                                    {"crop": False, "width_plus": 30}, {"soft_wrap": True, "width_plus": 7}, {"width_plus": 30}]))
     return st.one_of(
         st.tuples(st.just("print"), text_lines()), st.tuples(st.just("print"), text_lines()), st.tuples(st.just("log"), st.sampled_from(WORDS)), uncropped,
         st.tuples(st.just("update"), fl, st.booleans()), st.tuples(st.just("update"), fl, st.booleans()), st.tuples(st.just("update"), fl, st.booleans(), st.just(True)), st.tuples(st.just("refresh")),
@@ -312,8 +314,12 @@ class Runner:
             elif name == "print" and len(op) > 2 and op[2]:
                 # a print that is neither wrapped nor cropped (soft_wrap / crop=False); the text itself is short
                 printed_text = op[1][0][:8]
-                d.console.print(printed_text, **op[2])
-                self.twin.print(printed_text, **op[2])
+                kw = dict(op[2])
+                if "width_plus" in kw:
+                    kw["width"] = max(len(printed_text) + 1, d.console.width + kw.pop("width_plus"))
+                    self.ctx.cls("print-with-width-beyond-terminal" if kw["width"] > d.console.width else "print-with-width")
+                d.console.print(printed_text, **kw)
+                self.twin.print(printed_text, **kw)
                 self.ctx.cls("print-uncropped")
             elif name == "print":
                 printed_text = "\n".join(op[1])
@@ -668,7 +674,10 @@ class Faults(Part):
         if name == "print" and not op[1]:
             d.console.print()
         elif name == "print" and len(op) > 2 and op[2]:
-            d.console.print(op[1][0][:8], **op[2])
+            kw = dict(op[2])
+            if "width_plus" in kw:
+                kw["width"] = max(9, d.console.width + kw.pop("width_plus"))
+            d.console.print(op[1][0][:8], **kw)
         elif name == "print":
             d.console.print("\n".join(op[1]))
         elif name == "log":
